@@ -128,6 +128,27 @@ func (g *gen) translate(fo *types.Func) (*fnInfo, error) {
 		retT = "res " + retT
 	}
 	g.funcs[fo] = inf
+	// named results are variables holding the zero value
+	namedPrefix := ""
+	for i := 0; i < sig.Results().Len(); i++ {
+		rv := sig.Results().At(i)
+		if rv.Name() == "" || rv.Name() == "_" {
+			continue
+		}
+		t, err := f.ctype(fd, rv.Type())
+		if err != nil {
+			return nil, err
+		}
+		if t.k == kToken || t.k == kChan {
+			return nil, g.errf(fd, "named result %s of this type is not understood", rv.Name())
+		}
+		z, err := g.zero(t)
+		if err != nil {
+			return nil, g.errf(fd, "named result %s: %v", rv.Name(), err)
+		}
+		b := f.declare(rv, t)
+		namedPrefix += "let " + b.name + " := " + z + " in\n"
+	}
 	body, err := f.block(fd.Body.List, func() (string, error) {
 		if sig.Results().Len() != 0 {
 			return "", g.errf(fd, "the body of %s may end without a return", fo.Name())
@@ -138,6 +159,7 @@ func (g *gen) translate(fo *types.Func) (*fnInfo, error) {
 		delete(g.funcs, fo)
 		return nil, err
 	}
+	body = namedPrefix + body
 	def := fmt.Sprintf("(* %s: func %s *)\nDefinition %s %s : %s :=\n%s.", g.pos(fd), strings.TrimPrefix(inf.name, "gen_"),
 		inf.name, strings.Join(params, " "), retT, indent(body, "  "))
 	g.out = append(g.out, def)
